@@ -11,7 +11,8 @@ TECHNIQUE = "exhaustive enumeration of all entity-kind statement sequences up to
 LEVEL_TEXT = ("All sequences of length <=3 (thorough <=4) over 11 entity-producing statements (every kind of the property, two tables, "
               "a table with a trailing comment, a block comment) x 3 modes (thorough: all 15) are parsed flat and grouped by the real "
               "library; the grouped result must be exactly the flat entities redistributed by kind, in order."
-              " Empty and blank comment texts are part of the alphabet, and every corpus script is regrouped too (flat result as reference).")
+              " Empty and blank comment texts are part of the alphabet, and every corpus script is regrouped too (flat result as reference)."
+              " The flat and the grouped result are also taken from ONE parser object, in both call orders.")
 LEVEL_NOTE = "The flat result is the reference (its own correctness is C01-C18's subject); entity kinds are fixed by the statement alphabet."
 RULE = ("case = (sequence of statements, output mode); non-trivial = sequence with >= 2 statements of >= 2 different kinds; "
         "distinct by (sequence, mode)")
